@@ -624,6 +624,14 @@ impl TransactionalMemory {
                 .copy_from_slice(&header.to_bytes(true));
             storage.flush()?;
         }
+        // A file cut short inside the header is corrupt; reading the header below would reach past
+        // the end of the storage
+        if storage.raw_file_len()? < DB_HEADER_SIZE as u64 {
+            return Err(StorageError::Corrupted(
+                "File truncated below the database header".to_string(),
+            )
+            .into());
+        }
         let header_bytes = storage.read_direct(0, DB_HEADER_SIZE)?;
         let unrepaired =
             UnrepairedDatabaseHeader::from_bytes(&header_bytes, page_size.try_into().unwrap())?;
